@@ -19,8 +19,8 @@ func init() {
 	prop("C12", []string{"R-LITTRUNC", "R-GATE"},
 		"the literal-count and literal-length limits (MaxLiterals, MaxLiteralLen, cross-product limit) can only shrink what a prefilter promises, never make a non-covering set look covering or a truncated literal look complete, and a partial set never gates a search (R-LITTRUNC, R-GATE).",
 		"equality of results under DFA on/off, state limits, ASCII optimisation, CPU feature masking: value-level and declined.")
-	prop("C19", []string{"R-DISTINGUISH", "R-ASTWALK", "R-RECURSION"},
-		"every fast-path family reads the pattern datum its answer depends on (lazy flag, case folding, repeat bounds) per the frozen table of fast paths (R-DISTINGUISH); every contains-detector that routes patterns away from engines that cannot express them descends into every operator with children (R-ASTWALK); the specialised searchers' recursion is visited-gated (R-RECURSION).",
+	prop("C19", []string{"R-DISTINGUISH", "R-ASTWALK"},
+		"every fast-path family reads the pattern datum its answer depends on (lazy flag, case folding, repeat bounds) per the frozen table of fast paths (R-DISTINGUISH); every contains-detector that routes patterns away from engines that cannot express them descends into every operator with children (R-ASTWALK).",
 		"that the accepted fragment equals the implemented fragment beyond the data read (e.g. what may follow or sit between recognised parts), span arithmetic of each searcher.")
 	prop("C09", []string{"R-EXHAUST"},
 		"the NFA compiler's operator switch covers every operator regexp/syntax can emit and rejects unknown ones with an error (R-EXHAUST a).",
